@@ -228,8 +228,8 @@ theorem nextFrameOpT_ready (cfg : Cfg) {t : TCfg} {f : Flags} (i : Info) (hcv : 
   unfold nextFrameOp
   simp only [hinfo, callerBuf, hpb]
   rw [pendingBuf_none_eq hpb]
-  unfold nextFrameBuf
-  simp only [hrem, if_false, hcaf, Bool.false_eq_true, hR.flags, hrun]
+  rw [nextFrameBuf_inside cfg t r _ hrem hcaf]
+  simp only [hR.flags, hrun]
 
 /-! ## `read_until_image_data` and `read_info` -/
 
